@@ -48,7 +48,7 @@ def run_group(group, canary, rlimit, seed, tag=""):
         extra = []
         if seed:
             extra += ["--smt-option", f"smt.random_seed={seed}"]
-        res = V.run_verus(path, rlimit=rlimit, extra=extra)
+        res = V.run_verus(path, rlimit=(3 if canary else rlimit), extra=extra, multiple_errors=(0 if canary else 50))
         cls = V.classify(res, r["linemap"], path)
         # constants the extracted text refers to but no recipe lists: pull them in from /repo and retry
         added = False
